@@ -1,8 +1,10 @@
 (** * Model of [predict/gps/kernels.rs]: RBF and rational-quadratic kernels, scalar and matrix form.
     The matrix form of the Rust code goes through reshape, element-wise powi, a broadcast sum of a column and a
-    row, [dot_t] (an outer product accumulated from 0), scalar-matrix arithmetic and element-wise maps; the model
-    states the net effect entry by entry in the same operation order (that plumbing is C04/C05/C12/C15's subject
-    and is tied here by the bitwise correspondence). *)
+    row, [dot_t] (an outer product accumulated from 0), scalar-matrix arithmetic and element-wise maps; this file
+    states the net effect entry by entry in the same operation order.  The plumbing itself is modelled in
+    [Model/KernelsPlumbing.v] as the composition of the verified component models of C15 / C04 / C12 / C05 in the
+    code's call order; Proofs/C20_plumbing.v proves that composition equal to the net formulas below, and the
+    correspondence runs both. *)
 From Coq Require Import List ZArith Bool.
 From Compute Require Import Base.Ops.
 Import ListNotations.
